@@ -114,7 +114,10 @@ async fn settle(conns: &mut HashMap<usize, Conn>, cids: &HashMap<usize, String>,
 async fn run_case(sock: PathBuf, ops: Vec<String>) -> Vec<String> {
     let auth = ops.first().map(|l| l.contains("auth=1")).unwrap_or(false);
     let mut config = Config::new(None).await.expect("config");
-    config.ws_endpoint = None;
+    // the REST front end on a port of its own (op `rest`): the same core behind both front ends
+    let web_port = crate::rest_engine::free_port();
+    config.ws_endpoint = Some(worterbuch::WsEndpoint { endpoint: worterbuch::Endpoint { tls: false, bind_addr: "127.0.0.1".parse().expect("ip"), port: web_port }, public_addr: "localhost".to_owned() });
+    config.ws_disabled = false;
     config.tcp_endpoint = None;
     config.unix_endpoint = Some(UnixEndpoint { path: sock.clone() });
     config.unix_disabled = false;
@@ -232,6 +235,32 @@ async fn run_case(sock: PathBuf, ops: Vec<String>) -> Vec<String> {
                                 c.wr.flush().await.ok();
                             }
                         }
+                    }
+                    "rest" => {
+                        // rest none <METHOD> x<path below /api/v1/> [j<body>]: a REST request while the sessions are open
+                        let method = t[2];
+                        let path = unhex(t[3]);
+                        let endpoint = path.split('/').next().unwrap_or("").to_owned();
+                        let body: Option<Vec<u8>> = t.get(4).map(|b| {
+                            let text = unhex(b);
+                            if endpoint == "import" {
+                                use std::io::Write;
+                                let mut e = flate2::write::GzEncoder::new(Vec::new(), flate2::Compression::default());
+                                e.write_all(text.as_bytes()).ok();
+                                e.finish().unwrap_or_default()
+                            } else { text.into_bytes() }
+                        });
+                        let mut r = None;
+                        for _ in 0..200 {
+                            r = crate::rest_engine::http(web_port, method, &path, None, body.as_deref()).await;
+                            if r.is_some() { break; }
+                            tokio::time::sleep(Duration::from_millis(10)).await;      // the web server may still be starting
+                        }
+                        out.push(match r {
+                            None => "rest:noanswer".to_owned(),
+                            Some((200, b)) => format!("rest:200:{}", crate::rest_engine::canon(&endpoint, &b)),
+                            Some((st, _)) => format!("rest:{st}"),
+                        });
                     }
                     "race" => {
                         // race <n> x<key> j<value> <version>: n fresh connections send the same cSet at the same moment, each from a
